@@ -28,6 +28,8 @@ def gen(rng, tier):
             gb = [rng.choice(cols) for _ in range(rng.choice([0, 1, 1, 2, 3, 4, 5]))]
             if rng.random() < 0.1:
                 gb.append(b"nosuchcol")
+            if rng.random() < 0.15 and gb:
+                gb.insert(rng.randrange(len(gb)), b"")        # an empty column name, not last
             k = rng.randrange(1, 6)
             seq = [rng.choice(dss) for _ in range(k)]
             if rng.random() < 0.5:
